@@ -74,7 +74,7 @@ void harness(void)
     VF_ASSUME(ref_domain(s, n, 0));          /* the library only asks about valid host names */
     VF_ASSUME(s[n - 1] != '.');              /* without root dot */
     int r = is_special_domain((const char *) s, (const char *) s + n);
-    int want = ref_special(s, n);
+    int want = ref_reserved(s, n);
     VF_ASSERT((r != 0) == (want != 0), "C09: classified special iff last label reserved or last two labels example.{com,net,org}");
     VF_COVER(r != 0 && n >= 9 && s[n - 4] == '.', "special-second-level");
     VF_COVER(r != 0 && n >= 6 && s[n - 5] == '.', "special-tld-after-label");
